@@ -1,6 +1,6 @@
 //@ unit err_pos
 //@ serves C17
-//@ must_verify Error::new Error::with_pos Error::push_call_stack decorate_error_contract decorate_call_contract FromRegex::from FromIo::from FromBuild::from FromConv::from q_regex q_io q_conv
+//@ must_verify Error::new Error::with_pos Error::push_call_stack decorate_error_contract decorate_call_contract DisplayError::fmt FromRegex::from FromIo::from FromBuild::from FromConv::from q_regex q_io q_conv OpPointer::pos OpPointer::jump OpPointer::idx VM::push VM::pop VM::mul VM::div VM::sub VM::modulus VM::add VM::op_mod VM::op_sub VM::op_mul VM::op_div VM::op_add VM::op_gt VM::op_lt VM::op_gteq VM::op_lteq VM::op_equal VM::op_not VM::op_jump VM::op_and VM::op_or VM::op_jump_if_true VM::op_jump_if_false VM::op_select_jump VM::op_bang VM::get_binding VM::op_deref VM::binding_push VM::op_bind VM::op_index VM::merge_field_into_tuple VM::op_field VM::op_element VM::do_cast VM::op_cast VM::fcall_impl VM::op_fcall VM::op_new_scope VM::op_copy VM::op_typ VM::op_render VM::op_thunk VM::op_push_self VM::op_pop_self VM::op_exist VM::op_func VM::op_module VM::op_check_constraint Builtins::regex Builtins::range Builtins::get_file_as_string Builtins::get_file_as_bytes Builtins::include Builtins::handle VM::op_runtime
 //@ include prelude/head.rs
 use std::rc::Rc;
 
@@ -74,9 +74,12 @@ impl Position {
 
 // decorate_error!(pos => result): an Err gets the position `pos` (REPLACING whatever it carried, see notes/C17.json), call sites kept
 //@ extract src/build/opcode/error.rs :: macro decorate_error
+//@   mutant decorate_error_keeps_missing_position "Err(e) => Err(e.with_pos($pos.clone()))," => "Err(e) => Err(e)," expect decorate_error_contract,op_cast
 //@ end
 // decorate_call!(pos => result): an Err gets `pos` appended to its call sites, its own position kept
 //@ extract src/build/opcode/error.rs :: macro decorate_call
+//@   mutant decorate_call_adds_nothing "e.push_call_stack($pos.clone());" => "" expect decorate_call_contract,op_fcall
+//@   mutant decorate_call_overwrites_position "e.push_call_stack($pos.clone());" => "e.pos = Some($pos.clone());" expect decorate_call_contract,op_fcall
 //@ end
 // the two macros under contract, each expanded on an arbitrary result (the macro text is the extracted one)
 pub fn decorate_error_contract(pos: Position, result: Result<u8, Error>) -> (r: Result<u8, Error>)
@@ -93,6 +96,62 @@ pub fn decorate_call_contract(pos: Position, result: Result<u8, Error>) -> (r: R
 {
     decorate_call!(pos => result)
 }
+
+// ---------- Display: what `ucg build` prints ----------
+// R2: `fmt::Formatter` is a ghost-logged stand-in; one stub per `write!` call site, whose literal pieces are:
+//   "{} at {}"  - the message, then the PRIMARY position;   "{}" - the message alone;   "\nVIA: {}" - one call site
+pub enum Piece { MsgAt(Rc<str>, Position), Msg(Rc<str>), Via(Position) }
+pub struct VFormatter { pub log: Ghost<Seq<Piece>> }
+pub struct VFmtError {}
+pub mod fmt { pub type Result = core::result::Result<(), crate::VFmtError>; pub type Formatter<'a> = crate::VFormatter; }
+#[verifier::external_body]
+fn vw_msg_at(f: &mut VFormatter, message: &Rc<str>, pos: &Position) -> (r: fmt::Result)
+    ensures r is Ok ==> final(f).log@ == old(f).log@.push(Piece::MsgAt(*message, *pos))
+{ unimplemented!() }
+#[verifier::external_body]
+fn vw_msg(f: &mut VFormatter, message: &Rc<str>) -> (r: fmt::Result)
+    ensures r is Ok ==> final(f).log@ == old(f).log@.push(Piece::Msg(*message))
+{ unimplemented!() }
+#[verifier::external_body]
+fn vw_via(f: &mut VFormatter, p: &Position) -> (r: fmt::Result)
+    ensures r is Ok ==> final(f).log@ == old(f).log@.push(Piece::Via(*p))
+{ unimplemented!() }
+// the diagnostic: the message with the primary position FIRST, then one `VIA:` line per call site, innermost call first
+// (the order in which the calls were left = push order)
+pub open spec fn rendered(e: Error) -> Seq<Piece> {
+    seq![match e.pos { Some(p) => Piece::MsgAt(e.message, p), None => Piece::Msg(e.message) }]
+        + Seq::new(e.call_stack@.len(), |i: int| Piece::Via(e.call_stack@[i]))
+}
+pub struct DisplayError {}
+//@ extract src/build/opcode/error.rs :: impl Display for Error :: fn fmt
+//@   impl_header impl DisplayError
+//@   subst "fn fmt(&self, f: &mut fmt::Formatter<'_>) -> fmt::Result" => "pub fn fmt(self__: &Error, f: &mut fmt::Formatter<'_>) -> fmt::Result"
+//@   subst all "self." => "self__."
+// (R3 by hand: `Some(ref pos) = x` is `Some(pos) = &x`)
+//@   subst "if let Some(ref pos) = self__.pos {" => "if let Some(pos) = &self__.pos {"
+//@   subst "write!(f, \"{} at {}\", self__.message, pos)" => "vw_msg_at(f, &self__.message, pos)"
+//@   subst "write!(f, \"{}\", self__.message)" => "vw_msg(f, &self__.message)"
+//@   subst "write!(f, \"\\nVIA: {}\", p)" => "vw_via(f, p)"
+//@   ret r
+//@   sig <<<
+        ensures r is Ok ==> final(f).log@ =~= old(f).log@ + rendered(*self__)
+//@   >>>
+//@   loop 1 iter it <<<
+                invariant
+                    it.seq().len() == self__.call_stack@.len(),
+                    forall|k: int| 0 <= k < self__.call_stack@.len() ==> *it.seq()[k] == self__.call_stack@[k],
+                    f.log@ =~= old(f).log@ + rendered(*self__).take(1 + it.index@),
+//@   >>>
+//@   loop_body_end 1 <<<
+                assert(rendered(*self__).take(1 + it.index@ + 1) =~= rendered(*self__).take(1 + it.index@).push(Piece::Via(*p)));
+//@   >>>
+//@   before "if !self__.call_stack.is_empty() {" <<<
+        assert(rendered(*self__).take(1) =~= seq![rendered(*self__)[0]]);
+        assert(rendered(*self__).take(1 + self__.call_stack@.len() as int) =~= rendered(*self__));
+//@   >>>
+//@   mutant via_lines_reversed "for p in self__.call_stack.iter() {" => "for p in self__.call_stack.iter().rev() {" expect fmt
+//@   mutant primary_position_not_printed "if let Some(pos) = &self__.pos {" => "if let Some(pos) = &None::<Position> {" expect fmt
+//@ end
 
 // ---------- the `From` impls: where an error of another layer becomes an opcode::Error ----------
 // regex::Error, std::io::Error, convert::Error have NO position: the converted error has none (the raiser must add one);
@@ -734,11 +793,12 @@ pub open spec fn called_via(e: Error, site: Position) -> bool {
     e.pos is Some && e.call_stack@.len() > 0 && e.call_stack@.last() == site
 }
 // ENVIRONMENT (not a fault of the program, outside C17): `std::env::current_dir()` fails when the process has lost its
-// working directory; that io::Error becomes an error WITHOUT position (From<io::Error>).  Every contract downstream of
-// VM::fcall_impl is stated for a process whose working directory exists.
-pub uninterp spec fn cwd_ok() -> bool;
+// working directory, `File::create` / `write_all` of an `out` artifact fail on a full or read-only disk; such an
+// io::Error becomes an error WITHOUT position (From<io::Error>).  Every contract downstream of VM::fcall_impl and of the
+// `out` hook is stated for a process whose environment does not fail in these ways.
+pub uninterp spec fn env_ok() -> bool;
 #[verifier::external_body]
-fn verif_current_dir() -> (r: Result<VPathBuf, VIoError>) ensures cwd_ok() ==> r is Ok { unimplemented!() }
+fn verif_current_dir() -> (r: Result<VPathBuf, VIoError>) ensures env_ok() ==> r is Ok { unimplemented!() }
 // slice::to_vec: only the import stack is copied with it
 pub assume_specification<T: Clone> [<[T]>::to_vec] (s: &[T]) -> (r: Vec<T>);
 impl Builtins {
@@ -793,7 +853,7 @@ fn reserved_words() -> ReservedWords { unimplemented!() }
 //@   ret r
 //@   sig <<<
         ensures r is Ok ==> final(self).stack@.len() > 0,
-            cwd_ok() ==> (r matches Err(e) ==> positioned(e)),
+            env_ok() ==> (r matches Err(e) ==> positioned(e)),
             // a run never swaps the program it runs
             final(self).ops.pos_map == old(self).ops.pos_map,
 //@   >>>
@@ -809,7 +869,7 @@ fn reserved_words() -> ReservedWords { unimplemented!() }
             old(stack)@.len() >= f.bindings@.len(),
         ensures
             // an argument bound to a reserved name is reported at the argument; everything else comes out of the body
-            cwd_ok() ==> (r matches Err(e) ==> positioned(e)),
+            env_ok() ==> (r matches Err(e) ==> positioned(e)),
 //@   >>>
 //@   loop 1 iter it <<<
             invariant
@@ -829,7 +889,7 @@ pub open spec fn fcall_pre(vm: VM) -> bool {
         ensures
             // not a function / wrong number of arguments: at the call; a fault inside the callee: its own position,
             // with the call site - the position of the callee expression `f` in `f(..)` - listed last
-            cwd_ok() ==> (r matches Err(e) ==> raised_at(e, pos) || called_via(e, opnd_pos(*old(self), 1))),
+            env_ok() ==> (r matches Err(e) ==> raised_at(e, pos) || called_via(e, opnd_pos(*old(self), 1))),
             // the call's value stands at the call - not at a position inside the function body
             r is Ok ==> pushed_at(*final(self), pos),
 //@   >>>
@@ -845,7 +905,7 @@ pub open spec fn fcall_pre(vm: VM) -> bool {
 //@   ret r
 //@   sig <<<
         requires jump_pre(*old(self), jp)
-        ensures cwd_ok() ==> (r matches Err(e) ==> positioned(e)),
+        ensures env_ok() ==> (r matches Err(e) ==> positioned(e)),
 //@   >>>
 //@ end
 
@@ -890,7 +950,7 @@ pub open spec fn copy_own_pos(a: VM, pos: Position, p: Position) -> bool {
                 // out-expression keeps its position and gets the call listed (`pkg_ptr is None`: the `mod.pkg`
                 // constructor of a module declared in a file is run undecorated - it only builds a function value);
                 // the call's value stands AT THE CALL, whichever way the module produces it
-                M(m) => cwd_ok() ==> (r matches Err(e) ==> positioned(e)
+                M(m) => env_ok() ==> (r matches Err(e) ==> positioned(e)
                             && (m.pkg_ptr is None ==> (e.call_stack@.len() == 0 && copy_own_pos(a, pos, e.pos->0)) || called_via(e, pos)))
                         && (r is Ok ==> pushed_at(b, pos)),
                 // anything else cannot be copied: reported at the copy
@@ -919,6 +979,9 @@ pub open spec fn copy_own_pos(a: VM, pos: Position, p: Position) -> bool {
 //@   before "self.merge_field_into_tuple(" nth 2 <<<
                     assert(is_override_pos(*old(self), val_pos)) by { assert(opnd(*old(self), 1)->C_0->Tuple_1@[counter as int].1 == val_pos); }
 //@   >>>
+// the pinned tree's behaviour (defects 3 and 4)
+//@   mutant module_result_at_position_inside_module "let (result_val, _) = vm.pop()?; self.push(result_val, pos)?;" => "let (result_val, result_pos) = vm.pop()?; self.push(result_val, result_pos)?;" expect op_copy
+//@   mutant module_out_expr_call_site_not_recorded "decorate_call!(pos => vm.run(env))?; let (result_val, _) = vm.pop()?;" => "vm.run(env)?; let (result_val, _) = vm.pop()?;" expect op_copy
 //@   mutant module_call_site_not_recorded "decorate_call!(pos => vm.run(env))?; if let Some(ptr) = result_ptr {" => "vm.run(env)?; if let Some(ptr) = result_ptr {" expect op_copy
 //@   mutant copy_of_scalar_at_default_position "_ => { return Err(Error::new( verif_msg(), pos, )); }" => "_ => { return Err(Error::new( verif_msg(), Position::new(0, 0, 0), )); }" expect op_copy
 //@   mutant tuple_copy_at_override_position "self.push(Rc::new(C(Tuple(flds, pos_list))), tgt_pos.clone())?;" => "self.push(Rc::new(C(Tuple(flds, pos_list))), val_pos.clone())?;" expect op_copy
@@ -1079,7 +1142,7 @@ pub mod build { pub mod ir { pub use crate::{ConstraintVal, Val}; } }
         ensures
             r matches Err(e) ==> (if old(self).stack@.len() >= 2 { raised_at(e, opnd_pos(*old(self), 2)) } else { raised_at(e, pos) }),
 //@   >>>
-//@   mutant constraint_failure_at_constraint "let (constraint, _constraint_pos) = self.pop()?;" => "let (constraint, pos) = self.pop()?;" expect op_check_constraint
+//@   mutant constraint_failure_at_constraint "val_pos, ));" => "_constraint_pos, ));" expect op_check_constraint
 //@ end
 // VM::op_build_constraint (unit constraint_vm) - NOT under contract here (its two loops over a consuming iterator need
 // that unit's whole apparatus): ASSUMED from reading - its one `Error::new(.., pos)` and its one `push(.., pos)`
@@ -1090,6 +1153,227 @@ pub mod build { pub mod ir { pub use crate::{ConstraintVal, Val}; } }
 //@   sig <<<
         ensures r matches Err(e) ==> raised_at(e, pos), r is Ok ==> pushed_at(*final(self), pos),
 //@   >>>
+//@ end
+
+
+// =====================================================================================================================
+// 3. runtime.rs: the hooks behind Op::Runtime
+// =====================================================================================================================
+// regex::Regex (external): only whether the pattern compiles matters here
+#[verifier::external_body]
+pub struct VRegex { _p: u8 }
+#[verifier::external_body]
+pub struct VMatch { _p: u8 }
+impl VRegex {
+    #[verifier::external_body]
+    pub fn new(re: &str) -> Result<VRegex, VRegexError> { unimplemented!() }
+    #[verifier::external_body]
+    pub fn find(&self, hay: &str) -> Option<VMatch> { unimplemented!() }
+}
+// `a ~ b`: an operand that is no string is reported at that operand; a pattern that does not compile AT THE OPERATOR.
+// (On the pinned tree `Regex::new(..)?` let the regex crate's error travel up WITHOUT any position - defect 1.)
+//@ extract src/build/opcode/runtime.rs :: impl Builtins :: fn regex
+//@   rule R1 R3
+//@   subst? "Regex::new(&right_str)?" => "q_regex(VRegex::new(&right_str))?"
+//@   subst? "Regex::new(&right_str)" => "VRegex::new(&right_str)"
+//@   subst? "Error::from(e)" => "FromRegex::from(e)"
+// the pinned tree's behaviour (defect 1)
+//@   mutant bad_pattern_without_position "return Err(Error::from(e).with_pos(pos))" => "return Err(Error::from(e))" expect regex
+//@   ret r
+//@   sig <<<
+        // translator invariant (else: panic!, C04): both operands were pushed
+        requires old(stack)@.len() >= 2
+        ensures ({
+            let n = old(stack)@.len() as int;
+            &&& (r matches Err(e) ==> raised_at(e, old(stack)@[n - 1].1) || raised_at(e, old(stack)@[n - 2].1) || raised_at(e, pos))
+            &&& (r is Ok ==> final(stack)@.len() > 0 && final(stack)@.last().1 == pos)
+        })
+//@   >>>
+//@ end
+// `start:step:end`
+//@ extract src/build/opcode/runtime.rs :: impl Builtins :: fn range
+//@   rule R1 R3(start,step,end)
+//@   subst "\"Ranges can only be created with Ints\".to_string().into()" => "verif_msg()"
+//@   subst "let mut elems = Vec::new();" => "let mut elems: Vec<Rc<Value>> = Vec::new();"
+//@   subst "let mut pos_list = Vec::new();" => "let mut pos_list: Vec<Position> = Vec::new();"
+//@   subst "fn range(" => "#[verifier::exec_allows_no_decreases_clause] fn range("
+//@   ret r
+//@   sig <<<
+        requires old(stack)@.len() >= 3
+        ensures r matches Err(e) ==> raised_at(e, pos),
+            r is Ok ==> final(stack)@.len() > 0 && final(stack)@.last().1 == pos,
+//@   >>>
+//@   loop 1 <<<
+                    invariant true,
+                    ensures true,
+//@   >>>
+//@ end
+
+
+// `include TYPE "path"`: std::fs and the importer registry are external (unit include_hook models them); here only:
+// opening / reading may fail with an io::Error, an importer may refuse the bytes
+#[verifier::external_body]
+pub struct File { _p: u8 }
+impl File {
+    #[verifier::external_body]
+    pub fn open(path: &str) -> Result<File, VIoError> { unimplemented!() }
+    #[verifier::external_body]
+    pub fn read_to_string(&mut self, buf: &mut String) -> Result<usize, VIoError> { unimplemented!() }
+    #[verifier::external_body]
+    pub fn read_to_end(&mut self, buf: &mut Vec<u8>) -> Result<usize, VIoError> { unimplemented!() }
+}
+#[verifier::external_body]
+pub struct VImporter { _p: u8 }
+#[verifier::external_body]
+pub struct VImportError { _p: u8 }
+impl VImporter {
+    #[verifier::external_body]
+    pub fn import(&self, bytes: &Vec<u8>) -> Result<Rc<Val>, VImportError> { unimplemented!() }
+}
+impl<O, E> Environment<O, E> {
+    // `env.borrow().importer_registry.get_importer(..)`
+    #[verifier::external_body]
+    pub fn get_importer(&self, typ: &str) -> Option<&VImporter> { unimplemented!() }
+}
+impl Value {
+    // convert.rs `impl From<Rc<Val>> for Value`
+    #[verifier::external_body]
+    pub fn from_rc_val(v: Rc<Val>) -> Value { unimplemented!() }
+}
+#[verifier::external_body]
+pub fn verif_str_eq(a: &str, b: &str) -> (r: bool) ensures r == (a@ == b@) { a == b }
+//@ extract src/build/opcode/runtime.rs :: impl Builtins :: fn get_file_as_string
+//@   subst "File::open(path)?" => "q_io(File::open(path))?"
+//@   subst "f.read_to_string(&mut contents)?" => "q_io(f.read_to_string(&mut contents))?"
+//@   ret r
+//@   sig <<<
+        // an io::Error has no position: the caller must add one
+        ensures r matches Err(e) ==> unpositioned(e)
+//@   >>>
+//@ end
+//@ extract src/build/opcode/runtime.rs :: impl Builtins :: fn get_file_as_bytes
+//@   subst "File::open(path)?" => "q_io(File::open(path))?"
+//@   subst "f.read_to_end(&mut contents)?" => "q_io(f.read_to_end(&mut contents))?"
+//@   ret r
+//@   sig <<<
+        ensures r matches Err(e) ==> unpositioned(e)
+//@   >>>
+//@ end
+// a path / type operand that is no string is reported at that operand; a file that cannot be read, an unknown type and
+// bytes the importer refuses AT THE INCLUDE.  (On the pinned tree `self.get_file_as_string(&path)?` /
+// `self.get_file_as_bytes(&path)?` let the io::Error travel up WITHOUT any position - defect 2.)
+//@ extract src/build/opcode/runtime.rs :: impl Builtins :: fn include
+//@   rule R1 R3
+//@   subst "env.borrow().importer_registry.get_importer(&typ)" => "env.borrow().get_importer(&typ)"
+//@   subst "Ok(v) => v.into()," => "Ok(v) => Value::from_rc_val(v),"
+//@   subst "typ.as_ref() == \"str\"" => "verif_str_eq(typ.as_ref(), \"str\")"
+// the pinned tree's behaviour (defect 2)
+//@   mutant unreadable_file_without_position "decorate_error!(pos => self.get_file_as_string(&path))?" => "self.get_file_as_string(&path)?" expect include
+//@   mutant unreadable_data_file_without_position "decorate_error!(pos => self.get_file_as_bytes(&path))?" => "self.get_file_as_bytes(&path)?" expect include
+//@   ret r
+//@   sig <<<
+        // translator invariant (else: panic!, C04): the type and the path were pushed
+        requires old(stack)@.len() >= 2
+        ensures ({
+            let n = old(stack)@.len() as int;
+            &&& (r matches Err(e) ==> raised_at(e, old(stack)@[n - 1].1) || raised_at(e, old(stack)@[n - 2].1) || raised_at(e, pos))
+            &&& (r is Ok ==> final(stack)@.len() > 0 && final(stack)@.last().1 == pos)
+        })
+//@   >>>
+//@ end
+
+
+// The hooks NOT under contract here (import: unit import_hook; assert: assert_hook; convert / out: out_hook; trace) -
+// ASSUMED from reading, listed in notes/C17.json: each raises only `Error::new(.., <pos or an operand's position>)`,
+// lets a nested run's error through unchanged (import), or - `out` only - an io::Error of creating / writing the artifact.
+//@ extract src/build/opcode/runtime.rs :: impl Builtins :: fn import
+//@   opaque_body
+//@   ret r
+//@   sig <<<
+        ensures env_ok() ==> (r matches Err(e) ==> positioned(e))
+//@   >>>
+//@ end
+//@ extract src/build/opcode/runtime.rs :: impl Builtins :: fn assert
+//@   opaque_body
+//@   ret r
+//@   sig <<<
+        ensures r is Ok
+//@   >>>
+//@ end
+//@ extract src/build/opcode/runtime.rs :: impl Builtins :: fn convert
+//@   opaque_body
+//@   ret r
+//@   sig <<<
+        ensures r matches Err(e) ==> positioned(e)
+//@   >>>
+//@ end
+//@ extract src/build/opcode/runtime.rs :: impl Builtins :: fn out
+//@   opaque_body
+//@   subst "P: AsRef<Path> + Debug," => ""
+//@   ret r
+//@   sig <<<
+        ensures env_ok() ==> (r matches Err(e) ==> positioned(e))
+//@   >>>
+//@ end
+//@ extract src/build/opcode/runtime.rs :: impl Builtins :: fn trace
+//@   opaque_body
+//@   ret r
+//@   sig <<<
+        ensures r matches Err(e) ==> positioned(e)
+//@   >>>
+//@ end
+// map / filter / reduce (unit rt_funcs): a fault inside the function keeps its position and gets the position of the
+// map / filter / reduce expression listed as call site; their own complaints are at the function operand, at the
+// function's result, or at the expression
+//@ extract src/build/opcode/runtime.rs :: impl Builtins :: fn map
+//@   opaque_body
+//@   ret r
+//@   sig <<<
+        ensures env_ok() ==> (r matches Err(e) ==> positioned(e))
+//@   >>>
+//@ end
+//@ extract src/build/opcode/runtime.rs :: impl Builtins :: fn filter
+//@   opaque_body
+//@   ret r
+//@   sig <<<
+        ensures env_ok() ==> (r matches Err(e) ==> positioned(e))
+//@   >>>
+//@ end
+//@ extract src/build/opcode/runtime.rs :: impl Builtins :: fn reduce
+//@   opaque_body
+//@   ret r
+//@   sig <<<
+        ensures env_ok() ==> (r matches Err(e) ==> positioned(e))
+//@   >>>
+//@ end
+pub open spec fn hook_pre(h: Hook, st: Seq<(Rc<Value>, Position)>) -> bool {
+    // translator invariant (else the hooks panic!, C04): the operands of the hook were pushed
+    match h { Hook::Regex => st.len() >= 2, Hook::Range => st.len() >= 3, Hook::Include => st.len() >= 2, _ => true }
+}
+// the hook dispatcher: it adds nothing to and takes nothing from what the hook reports; every hook gets the position of
+// the Runtime op (`trace` the one the translator stored in the hook itself)
+//@ extract src/build/opcode/runtime.rs :: impl Builtins :: fn handle
+//@   subst "P: AsRef<Path> + Debug," => ""
+//@   ret r
+//@   sig <<<
+        requires hook_pre(h, old(stack)@)
+        ensures env_ok() ==> (r matches Err(e) ==> positioned(e)),
+            // the two hooks whose defects this unit found: nothing comes out of them without a position
+            (h is Regex || h is Include) ==> ({
+                let n = old(stack)@.len() as int;
+                r matches Err(e) ==> raised_at(e, old(stack)@[n - 1].1) || raised_at(e, old(stack)@[n - 2].1) || raised_at(e, pos) }),
+            h is Range ==> (r matches Err(e) ==> raised_at(e, pos)),
+//@   >>>
+//@ end
+//@ extract src/build/opcode/vm.rs :: impl VM :: fn op_runtime
+//@   ret r
+//@   sig <<<
+        requires hook_pre(h, old(self).stack@)
+        ensures env_ok() ==> (r matches Err(e) ==> positioned(e)),
+            (h is Regex || h is Include) ==> (r matches Err(e) ==> raised_at(e, opnd_pos(*old(self), 1)) || raised_at(e, opnd_pos(*old(self), 2)) || raised_at(e, pos)),
+            h is Range ==> (r matches Err(e) ==> raised_at(e, pos)),
+//@   >>>
+//@   mutant runtime_hook_gets_default_position "import_stack, pos, )" => "import_stack, Position::new(0, 0, 0), )" expect op_runtime
 //@ end
 
 } // verus!
